@@ -144,9 +144,10 @@ pub fn gen_safety(w: &mut Rng, has_tool: bool, has_base: bool, n_env: usize, tou
         return SafetySpec::touch(if mode == Mode::NoCheck { Mode::All } else { mode });
     }
     let dist = |w: &mut Rng| -> f32 {
-        if w.chance(0.12) {
-            // extremes: micrometre clearances, negative zero as "touch only", metres
-            return *w.pick(&[1e-6f32, 2e-5, 1e-4, 5e-4, 9e-4, -0.0, -0.0, 2.0, 10.0]);
+        if w.chance(0.16) {
+            // extremes: micrometre clearances (several between a micrometre and a tenth of a
+            // millimetre), negative zero as "touch only", metres
+            return *w.pick(&[1e-6f32, 2e-5, 3e-5, 5e-5, 8e-5, 1e-4, 5e-4, 9e-4, -0.0, -0.0, 2.0, 10.0]);
         }
         match w.below(6) {
             0 | 1 => 0.0,
@@ -367,7 +368,8 @@ pub enum Relation {
 /// Returns the relation used for each body (reach statistics).
 pub fn add_environment(w: &mut Rng, cell: &mut CellSpec, anchor: &[f64; 6], k: &CellKnobs) -> Vec<Relation> {
     let big = if w.chance(0.5) { 20 } else { 6 };
-    let n_env = if k.max_env > 6 { w.range_usize(6, k.max_env.max(big)) } else { w.below(if k.sparse { k.max_env.min(2) } else { k.max_env } + 1) };
+    // crowded scenes: half of them with 17-20 bodies (more than any fixed-size shortcut of 16)
+    let n_env = if k.max_env > 6 { if big == 20 { w.range_usize(17, 20) } else { w.range_usize(6, k.max_env) } } else { w.below(if k.sparse { k.max_env.min(2) } else { k.max_env } + 1) };
     let mut rels = Vec::new();
     if n_env == 0 {
         return rels;
@@ -442,7 +444,15 @@ pub fn add_environment(w: &mut Rng, cell: &mut CellSpec, anchor: &[f64; 6], k: &
                 } else {
                     (w.range_f64(0.0005, 0.01) * if w.chance(0.5) { 1.0 } else { -1.0 }) as f32
                 };
-                let want = if r > 0.0 && r < 2e-3 { r + delta } else { (r + delta).max(0.0003) };
+                // touch-only pairs: now and then almost touching (tens of micrometres apart), where
+                // "intersects" and "closer than some epsilon" part company
+                let want = if r == 0.0 && w.chance(0.3) {
+                    w.range_f64(3e-5, 9e-5) as f32
+                } else if r > 0.0 && r < 2e-3 {
+                    r + delta
+                } else {
+                    (r + delta).max(0.0003)
+                };
                 let mut half = [w.range_f64(0.1, 0.5) as f32; 3];
                 half[axis] = w.range_f64(0.005, 0.03) as f32;
                 let mesh = MeshSpec::cube(half, [0.0; 3], 1 + w.below(k.max_sub as usize) as u8);
